@@ -350,6 +350,9 @@ def run(ctx):
             continue
         if o.kind == 'ret' and sem.is_err_result(o.val):
             continue        # the driver ends with an error: every sender is dropped with it
+        if any(sem.failed(o, lambda v, w=('call', cal, tuple(args), node.get('id')): v == ('await', w))
+               for i, cal, args, node in sem.calls(o, lambda c: c.rsplit('::', 1)[-1] == 'send') if 'Framed<' in sem.recv_ty(node)):
+            continue        # the request could not be written to the transport: it was not served, nothing is to be acknowledged (L2 decides what a failed write leads to)
         kind = {v: sem.variant_truth(o.st.pc, lambda t: t == OP, v, OPS) for v in OPS}
         which = next((v for v in OPS if kind[v] is True), None)
         sig = '%s|%s|%s' % ((which or 'kind not looked at').rsplit('::', 1)[-1], o.kind,
@@ -361,9 +364,12 @@ def run(ctx):
         if kind['LdapOp::Single'] is not False:
             ctx.add('L5.ack-not-under-single', sig, loc(own[0][2]) if own else loc(req['body']), not own,
                     'a path of the request arm that a Single operation takes sends the driver\'s own acknowledgement on the request\'s reply channel: its caller gets that instead of the server\'s response')
+        # `oneshot::Sender::is_closed()` is true iff the receiver was dropped or closed, and stays true: on a path that has found the
+        # request's own reply channel closed nobody is there to acknowledge to (a send could only fail), so none is owed
+        nobody_listens = any(t is True and a[0] == 'call' and a[1].endswith('oneshot::Sender::<T>::is_closed') and tuple(a[2]) == (TX,) for a, t in o.st.pc)
         if kind['LdapOp::Single'] is not True:
             what = (which or 'Search / Abandon / Unbind').rsplit('::', 1)[-1]
-            ctx.add('L5.ack', sig, loc(req['body']), len(own) == 1,
+            ctx.add('L5.ack', sig, loc(req['body']), len(own) == 1 or (nobody_listens and not own),
                     'a path of the request arm that serves %s %s request sends %d acknowledgements on the request\'s own reply channel (expected exactly one): %s'
                     % ('an' if what[0] in 'AU' else 'a', what, len(own), 'its caller is failed instead of being told that the request was served' if not own else 'the second send cannot be delivered'))
             ctx.add('L5.ack-target', sig, loc(others[0][2]) if others else loc(req['body']), bool(own) or not others,
@@ -387,24 +393,29 @@ def run(ctx):
     # a driver that goes on polling keeps every reply sender alive, so operations still waiting hang for as long as the peer
     # keeps its side of the connection open.  On every path of the request arm on which the operation is Unbind the loop is left.
     VARS = ('LdapOp::Single', 'LdapOp::Search', 'LdapOp::Abandon', 'LdapOp::Unbind')
-    unbind_paths = []
+    # Which paths: those on which the operation is known to be Unbind, and those that go on serving without having looked at the kind
+    # of operation at all (an Unbind takes such a path too: what Unbind does must not depend on anything else the arm may test first,
+    # such as whether its caller still listens).  Not asked of a path that ends the driver with an error.
+    unbind_paths, unlooked = [], set()
     for o in driver.arm_paths(C, 'request')[0]:
-        known = {}
-        for a, t in o.st.pc:
-            if a[0] == 'is' and a[2] in VARS and sem.has(a[1], lambda x: x == driver.ARM):
-                known[a[2]] = t
-        if known.get('LdapOp::Unbind') is True or all(known.get(v) is False for v in VARS[:3]):
+        if o.kind == 'div' or absx.pc_variant(o.st.pc, lambda v: v == driver.ARM, 'Some') is not True:
+            continue
+        is_unbind = sem.variant_truth(o.st.pc, lambda t: t == OP, 'LdapOp::Unbind', VARS)
+        if is_unbind is True:
             unbind_paths.append(o)
+        elif is_unbind is None and not any(a[0] == 'is' and a[2] in VARS and a[1] == OP for a, t in o.st.pc) and not (o.kind == 'ret' and sem.is_err_result(o.val)):
+            unbind_paths.append(o)
+            unlooked.add(id(o))
     n_unbind = len(unbind_paths)
     # (for the message: what the paths that stay in the loop have in common - the tests they all found failed, e.g. the
     # acknowledgement that could not be delivered because the unbind() future was dropped)
     fails = lambda o: {absx.fmt(sem.strip_site(a[1]))[:60] for a, t in o.st.pc if a[0] == 'is' and a[2] in ('Ok', 'Some') and not t}
-    staying = [o for o in unbind_paths if o.kind not in ('brk', 'ret')]
+    staying = [o for o in unbind_paths if o.kind not in ('brk', 'ret') and id(o) not in unlooked]
     common = sorted(set.intersection(*[fails(o) for o in staying])) if staying else []
     for o in unbind_paths:
         ctx.add('L9.unbind-ends-the-driver', 'request arm|' + o.kind, loc(req['body']), o.kind in ('brk', 'ret'),
                 'after an Unbind the driver loop goes on (path ends in `%s`%s): operations still waiting for a response are not failed but hang until the peer closes its side of the connection'
-                % (o.kind, (', taken when %s failed' % ' and '.join(common)) if common else ''))
+                % (o.kind, ', before the kind of operation is looked at: an Unbind takes this path too' if id(o) in unlooked else (', taken when %s failed' % ' and '.join(common)) if common else ''))
     ctx.floor('L9', 'paths of the request arm for Unbind', n_unbind, 1)
 
     # ---- L6 a driver that hands the connection back (the one-operation mode used while StartTLS is negotiated: its caller keeps
